@@ -59,7 +59,7 @@ example : WFMsg (Msg.new [56] [57] [49, 48] [51, 53] [70, 73, 88] [48] [] [.kv [
 /-- the digit count of BodyLength is whatever `natDigits` gives: crossing 9/10, 99/100, 999/1000 -/
 theorem C01_digits : (natDigits 9).length = 1 ∧ (natDigits 10).length = 2 ∧ (natDigits 99).length = 2
     ∧ (natDigits 100).length = 3 ∧ (natDigits 999).length = 3 ∧ (natDigits 1000).length = 4 := by
-  simp [natDigits]
+  decide
 
 /-- the CheckSum value always has exactly three characters -/
 theorem C01_checksum_width (b : Bytes) : (calcCheckSum b).length = 3 := calcCheckSum_length b
